@@ -876,7 +876,7 @@ pub fn gen_history(p: &mut Prng, proj: &Project, len: usize, faults_on: &[bool; 
     let n = proj.pkgs.len();
     let mut ops = Vec::new();
     // start from a fully built store
-    for pi in (0..n).rev() {
+    for pi in build_order(proj) {
         ops.push(Op::Build { p: pi, entropy: p.next_u64(), crash_at: None, use_alt_dir_first: false });
     }
     ops.push(Op::Link { cores: (0..n).map(|i| (0u8, i)).collect(), entropy: p.next_u64() });
@@ -975,6 +975,48 @@ pub struct HistoryResult {
     pub stats: Stats,
 }
 
+/// Dependencies-first build order; among the ready packages the highest index goes first (for
+/// generated projects, whose imports point to higher indices, this is simply n-1 .. 0).
+pub fn build_order(proj: &Project) -> Vec<usize> {
+    let n = proj.pkgs.len();
+    let mut done: Vec<usize> = Vec::new();
+    while done.len() < n {
+        let next = (0..n).rev().find(|i| !done.contains(i) && proj.pkgs[*i].imports.iter().all(|d| done.contains(d)));
+        match next {
+            Some(i) => done.push(i),
+            None => break,
+        }
+    }
+    for i in (0..n).rev() {
+        if !done.contains(&i) {
+            done.push(i);
+        }
+    }
+    done
+}
+
+/// Histories also run on projects with a *leftover* package: a library that imports one of the
+/// project's libraries but that nothing imports (what remains in a source tree and an artifact
+/// directory after Main stopped using a package). It is built and offered to `link` like every
+/// other package; a stale core of it is as unlinkable as any other stale core.
+pub fn project_for_history(seed: u64, idx: u64) -> (Project, [bool; 8], bool, usize) {
+    let (mut proj, on, crash, len) = project_for(seed, idx);
+    let mut p = Prng::derive(seed, idx, "c15-leftover");
+    let n = proj.pkgs.len();
+    if n >= 2 && p.chance(1, 3) {
+        let j = 1 + p.usize(n - 1);
+        let mut pk = crate::genp::project::Pkg::default();
+        pk.name = "Zleft".to_string();
+        pk.imports = vec![j];
+        pk.nfiles = 1;
+        pk.raw = "\nfn zleft_id(x: int32) -> int32 {\n    x + 1\n}\n".to_string();
+        if !proj.pkgs.iter().any(|q| q.name == pk.name) {
+            proj.pkgs.push(pk);
+        }
+    }
+    (proj, on, crash, len)
+}
+
 pub fn project_for(seed: u64, idx: u64) -> (Project, [bool; 8], bool, usize) {
     let mut p = Prng::derive(seed, idx, "c15-project");
     let mut cfg = GenCfg::swarm(&mut p);
@@ -1039,7 +1081,7 @@ pub fn run_history(sb: &Sandbox, proj: &Project, ops: &[Op], final_phase: bool) 
         // does: rebuild everything in dependency order, link); the shadowing directory goes
         sb.remove("store0");
         sb.mkdir("store0");
-        for pi in (0..n).rev() {
+        for pi in build_order(&w.proj) {
             w.check_or_build(pi, mix(&[pi as u64, 78]), true, None, false);
         }
         let before = w.findings.len();
@@ -1058,7 +1100,7 @@ pub fn run_history(sb: &Sandbox, proj: &Project, ops: &[Op], final_phase: bool) 
         sb.remove("store0");
         sb.mkdir("store");
         sb.mkdir("store0");
-        for pi in (0..n).rev() {
+        for pi in build_order(&w.proj) {
             w.check_or_build(pi, mix(&[pi as u64, 77]), true, None, false);
         }
         let before = w.findings.len();
@@ -1103,7 +1145,7 @@ struct RunResult {
 }
 
 fn check_history(sb: &Sandbox, opts: &Opts, idx: usize) -> RunResult {
-    let (proj, on, crash, len) = project_for(opts.seed, idx as u64);
+    let (proj, on, crash, len) = project_for_history(opts.seed, idx as u64);
     let mut p = Prng::derive(opts.seed, idx as u64, "c15-history");
     let ops = gen_history(&mut p, &proj, len, &on, crash);
     let res = run_history(sb, &proj, &ops, true);
@@ -1124,6 +1166,7 @@ fn check_history(sb: &Sandbox, opts: &Opts, idx: usize) -> RunResult {
                 "kind": "c15",
                 "project_seed": opts.seed,
                 "project_index": idx,
+                "leftover": true,
                 "ops": small,
                 "final_phase": f.at_op >= ops.len(),
                 "class": f.class,
@@ -1436,7 +1479,8 @@ pub fn replay(file: &Value) -> bool {
         let proj = enum_project(file["seed"].as_u64().unwrap_or(0), i);
         run_history_exact_pointer(&sb, &proj, &ops, 0)
     } else {
-        let (proj, _, _, _) = project_for(r["project_seed"].as_u64().unwrap_or(0), r["project_index"].as_u64().unwrap_or(0));
+        let (ps, pi) = (r["project_seed"].as_u64().unwrap_or(0), r["project_index"].as_u64().unwrap_or(0));
+        let (proj, _, _, _) = if r["leftover"] == true { project_for_history(ps, pi) } else { project_for(ps, pi) };
         run_history(&sb, &proj, &ops, r["final_phase"] == true)
     };
     for l in &res.stats.log {
